@@ -825,6 +825,14 @@ func recordLineage(args []string) int {
 	opts.NodeActivatorsProb = []float64{0.5, 0.5}
 	l := &lineage{in: newInterner(), opts: opts, out: json.NewEncoder(f), rep: &vhu.Report{Command: "record-lineage"}, stats: map[string]int{}}
 	for s := 0; s < *segs; s++ {
+		// "all option settings": every segment of every trace has its own setting of the options the mutators read
+		k := int(*seed) + s
+		opts.RecurOnlyProb = []float64{0.25, 0, 1, 0.5}[k%4]
+		opts.NewLinkTries = []int{20, 1, 50, 5}[(k/2)%4]
+		opts.WeightMutPower = []float64{2.5, 0.5, 10}[k%3]
+		opts.TraitParamMutProb, opts.TraitMutationPower = []float64{0.5, 0, 1}[(k/3)%3], []float64{1, 0.125}[k%2]
+		opts.MutateLinkWeightsProb = []float64{0.9, 1, 0.2}[(k/2)%3]
+		opts.MutateToggleEnableProb, opts.MutateGeneReenableProb = []float64{0.3, 1, 0}[k%3], []float64{0.3, 0, 1}[(k/2)%3]
 		l.reset(s)
 		l.twinSplitScenario()
 		l.conflictScenario()
